@@ -257,14 +257,23 @@ class AsyncDatagramServer(_transports.AsyncBaseTransport, Generic[_T_Request, _T
             del datagram
             null_timeout_ctx = contextlib.nullcontext()
             backend = client_data.backend
+            checkpoint_was_shielded: bool = False
             while True:
                 try:
-                    if not client_data.queue_is_empty():
+                    if client_data.queue_is_empty():
+                        checkpoint_was_shielded = False
+                    elif checkpoint_was_shielded:
+                        # A cancellation postponed by the previous checkpoint must be delivered now
+                        # (nothing is lost: the datagram is still in the queue, which may never be empty again).
+                        checkpoint_was_shielded = False
+                        await backend.coro_yield()
+                    else:
                         # Already have a datagram: always let the other tasks run between two queued datagrams
                         # (a long backlog of one client must not keep the other clients waiting until it is exhausted).
-                        # NOTE: Before the datagram is taken from the queue and outside the timeout scope: nothing is lost if a
-                        #       cancellation is delivered here, and it must be (the queue may never be empty again).
-                        await backend.coro_yield()
+                        # NOTE: Shielded from cancellation, so that a scope of the request handler which has already expired
+                        #       (a polling handler) does not turn it into "nothing received". But never twice in a row.
+                        checkpoint_was_shielded = True
+                        await backend.cancel_shielded_coro_yield()
                     with null_timeout_ctx if timeout is None else backend.timeout(timeout):
                         datagram = await client_data.pop_datagram()
                     action = self.__parse_datagram(datagram, self.__protocol)
